@@ -307,6 +307,13 @@ func (g *pwGen) unauthorisedPush(ref string, i int) int {
 			return id
 		}
 	}
+	if g.lastOp[ref] != 0 && r.Chance(0.12) {
+		// the current tip recorded once more, by someone who may not: a different entry with the same target
+		id := g.b.add(world.Op{Kind: "record", Actor: g.cfg.nDev + 3 - 1, Ref: ref, Base: "", EntryKey: unknownKey})
+		g.pushes = append(g.pushes, id)
+		g.lastOp[ref] = id
+		return id
+	}
 	switch r.Intn(4) {
 	case 0: // never-authorised actor
 		op = world.Op{Kind: "push", Actor: g.cfg.nDev + 3 - 1, Ref: ref, Files: fileFor(r, i), CommitKey: -1, EntryKey: unknownKey}
@@ -430,6 +437,22 @@ func (g *pwGen) generate() {
 				}
 				g.b.add(world.Op{Kind: "stage", Actor: 0, Policy: g.pol})
 				g.b.add(world.Op{Kind: "apply", Actor: 0})
+			}
+			if vs := model.Walk(g.pol, "git:"+ref); good != 0 && g.cfg.approvals && len(vs) > 0 && vs[0].Threshold == 2 && len(vs[0].Principals) >= 2 && r.Chance(0.5) {
+				// the next change is prepared and approved while the incident is still open (the approval is
+				// recorded between the violation and its fix); the fix goes back to the good commit itself,
+				// then the approved change is recorded
+				s1, s2 := vs[0].Principals[0].Keys[0], vs[0].Principals[1].Keys[0]
+				cx := g.b.add(world.Op{Kind: "commit", Actor: g.actorForKey(s1), Ref: ref, Base: fmt.Sprintf("entry:%d", good), Files: fileFor(r, i+200), CommitKey: s1})
+				g.b.add(world.Op{Kind: "approve", Actor: g.actorForKey(s2), Approve: &world.ApproveSpec{Ref: ref, FromOp: good, ToOp: cx, Signers: []int{s2}}})
+				// the fix (from the violating state back to the good tree) is approved by the second developer too
+				g.b.add(world.Op{Kind: "approve", Actor: g.actorForKey(s2), Approve: &world.ApproveSpec{Ref: ref, FromOp: bad, ToOp: good, Signers: []int{s2}}})
+				fx := g.b.add(world.Op{Kind: "record", Actor: g.actorForKey(s1), Ref: ref, Base: fmt.Sprintf("entry:%d", good), EntryKey: -2})
+				g.pushes = append(g.pushes, fx)
+				id := g.b.add(world.Op{Kind: "record", Actor: g.actorForKey(s1), Ref: ref, Base: fmt.Sprintf("op:%d", cx), EntryKey: -2})
+				g.pushes = append(g.pushes, id)
+				g.lastOp[ref] = id
+				continue
 			}
 			fixer, fixKey := badOp.Actor, badOp.EntryKey
 			if r.Chance(0.5) {
